@@ -2,7 +2,8 @@
    Marshal / Size / Reset+Unmarshal and writes one [case] per input with the observed results;
    [check_case] recomputes them with the model (Codec/BigIntCaster.v, Codec/Proto.v).
    Decode results are compared by class (value / error / panic) and, for values, field by field. *)
-From EV Require Import Base.Bytes Base.Monad Codec.Types Codec.Varint Codec.BigIntCaster Codec.Proto.
+From EV Require Import Base.Bytes Base.Monad Codec.Types Codec.Varint Codec.BigIntCaster Codec.Proto Codec.CasterGo
+  Codec.Format.
 
 Inductive outcome (A : Type) := OVal (a : A) | OErr | OPanic.
 Arguments OVal {A}. Arguments OErr {A}. Arguments OPanic {A}.
@@ -10,11 +11,13 @@ Arguments OVal {A}. Arguments OErr {A}. Arguments OPanic {A}.
 Inductive case :=
 | KCasterEnc (v : option Z) (size : N) (b : bytes)           (* Size(v), bytes written by MarshalTo *)
 | KCasterDec (buf : bytes) (r : outcome (option Z))          (* Unmarshal(buf) *)
+| KCasterTo (v : option Z) (blen : N) (r : outcome (N * bytes))  (* MarshalTo(v, make([]byte, blen)): n, buf[:min(n, blen)] *)
 | KTokEnc (t : token) (size : N) (b : bytes)                 (* t.Size(), t.Marshal() *)
 | KTokDec (b : bytes) (r : outcome token)                    (* Reset(); Unmarshal(b) *)
 | KTokFrom (t0 : token) (b : bytes) (r : outcome token)      (* Unmarshal(b) on a receiver holding t0 (merge) *)
 | KRolesEnc (r : roles) (size : N) (b : bytes)
 | KRolesDec (b : bytes) (r : outcome roles)
+| KRolesFrom (r0 : roles) (b : bytes) (r : outcome roles)
 | KMdEnc (m : metadata) (size : N) (b : bytes)
 | KMdDec (b : bytes) (r : outcome metadata)
 | KMdFrom (m0 : metadata) (b : bytes) (r : outcome metadata).
@@ -47,12 +50,15 @@ Definition check_case (c : case) : bool :=
   match c with
   | KCasterEnc v size b => (caster_size v =? size)%N && beqb (caster_marshal v) b
   | KCasterDec buf r => outcome_eqb oZ_eqb (caster_outcome (caster_unmarshal buf)) r
-  | KTokEnc t size b => (size_token t =? size)%N && beqb (enc_token t) b
+                        && outcome_eqb oZ_eqb (caster_unmarshal_go buf) r
+  | KCasterTo v blen r => outcome_eqb (fun x y => (fst x =? fst y)%N && beqb (snd x) (snd y)) (caster_marshal_to_go v blen) r
+  | KTokEnc t size b => (size_token t =? size)%N && beqb (enc_token t) b && beqb (doc_token t) b
   | KTokDec b r => outcome_eqb token_eqb (dec_token_res b) r
   | KTokFrom t0 b r => outcome_eqb token_eqb (unmarshal_token t0 b) r
-  | KRolesEnc x size b => (size_roles x =? size)%N && beqb (enc_roles x) b
+  | KRolesEnc x size b => (size_roles x =? size)%N && beqb (enc_roles x) b && beqb (doc_roles x) b
   | KRolesDec b r => outcome_eqb (list_eqb beqb) (dec_roles_res b) r
-  | KMdEnc m size b => (size_metadata m =? size)%N && beqb (enc_metadata m) b
+  | KRolesFrom r0 b r => outcome_eqb (list_eqb beqb) (unmarshal_roles r0 b) r
+  | KMdEnc m size b => (size_metadata m =? size)%N && beqb (enc_metadata m) b && beqb (doc_metadata m) b
   | KMdDec b r => outcome_eqb metadata_eqb (dec_metadata_res b) r
   | KMdFrom m0 b r => outcome_eqb metadata_eqb (unmarshal_metadata m0 b) r
   end.
